@@ -65,12 +65,16 @@ Unlock == /\ pc = "unlock"
           /\ UNCHANGED <<file, dev, mem, newp, force, lives, faults, crashes, fresh, recon, reboots>>
 
 \* start_change + new_pin: the device acknowledges, refuses (policy) or errors
+\* ("cut": the transfer of the new PIN is cut short by a time-out before the device was told to take it - the
+\* device never ran the command, nothing was acknowledged, the change is abandoned)
 Send == /\ pc = "gen"
-        /\ \E ans \in {"ack", "refuse", "err"} :
+        /\ \E ans \in {"ack", "refuse", "err", "cut"} :
              /\ newp' = fresh /\ fresh' = fresh + 1
              /\ IF ans = "ack"
                 THEN /\ dev' = fresh /\ pc' = "open"
                      /\ Emit([E0("newpin") EXCEPT !.ok = "t", !.pin = fresh], file, fresh)
+                ELSE IF ans = "cut"
+                THEN /\ pc' = "abort" /\ UNCHANGED <<dev, obs, bad>>
                 ELSE /\ pc' = "abort" /\ UNCHANGED dev
                      /\ Emit([E0("newpin") EXCEPT !.ok = "f", !.pin = fresh], file, dev)
              /\ H([a |-> "newpin", ans |-> ans])
